@@ -10,7 +10,7 @@
                  `Cell sublines` (an IPython cell: no file, the source lives only in
                  linecache.cache - and is lost once show_func has called linecache.clearcache()
                  for a function whose file is on disk; that state is the `cleared` flag)
-     formatter = the five number-to-text conversions (instantiated in Cells.v by
+     formatter = the four number-to-text conversions (instantiated in Cells.v by
                  `py_formatter unit output_unit`; every structural theorem holds for any formatter)
      show_func F env strip cleared key timings : option block
      show_text F env opts stats        : report
@@ -41,8 +41,7 @@ Record formatter := mkFmt {
   f_unit_text : string;            (* '%g' % (output_unit if output_unit is not None else unit) *)
   f_total : Z -> string;           (* '%g' % (total_time * unit) *)
   f_cells : Z -> timing -> cells;  (* total_time -> one timing -> its display tuple *)
-  f_summary : Z -> string;         (* '%6.2f' % (total_time * unit) *)
-  f_truthy : Z -> bool             (* bool(total_time * unit) *)
+  f_summary : Z -> string          (* '%6.2f' % (total_time * unit) *)
 }.
 
 (* sum(...) over a list of ints *)
@@ -182,9 +181,11 @@ Fixpoint filter_map {A B} (f : A -> option B) (l : list A) : list B :=
   | x :: t => match f x with Some y => y :: filter_map f t | None => filter_map f t end
   end.
 
+(* `if not stripzeros or sum(t[1] for t in timings)`: like show_func, skip exactly the functions
+   without hits (since /repo commit 49eff24; before it the test was on total_time * unit) *)
 Definition summary_of (F : formatter) (strip : bool) (e : entry) : option (key * string) :=
   let tt := total_time (snd e) in
-  if negb strip || f_truthy F tt then Some (fst e, f_summary F tt) else None.
+  if negb strip || negb (total_hits (snd e) =? 0) then Some (fst e, f_summary F tt) else None.
 
 Definition show_text (F : formatter) (E : env) (o : options) (st : stats) : report :=
   let order := stats_order (o_sort o) st in
